@@ -11,24 +11,29 @@ def run(out, tier, seed):
     if r.violated:
         out.judge({"clause": "LawModel", "why": "TLC"}, {"tlc": r.out[-2500:]})
     cases = PC.run_cases(tier, seed, work)
-    cases = [c for c in cases if c["kind"] in ("law", "ws")]
+    # law pairs, re-spacings, and every grammar-derived selector that compiles (focus attributes)
+    cases = [c for c in cases if c["kind"] in ("law", "ws") or (c["kind"] == "parse" and c["src"] == "grammar" and c["out"]["k"] in ("E", "C"))]
     fails = PC.validate(out, cases, work)
     by = {c["id"]: c for c in cases}
     for cid, clause, detail in fails:
         c = by[cid]
         if clause in ("Drift", "DriftLexer"):
             out.drift.append({"case": c.get("text", c.get("ltext")), "clause": clause})
+        elif clause == "Focus":
+            out.judge({"clause": "Focus", "why": detail}, {"selector": c["text"], "compiled": c["out"], "reported": c["attrs"]})
         elif clause in ("Law", "LawModel"):
             payload = {"law": detail, "lhs": c.get("ltext", c.get("base_text")), "rhs": c.get("rtext", c.get("text")),
-                       "same_object": c["same"]}
+                       "same_object": c.get("same", c.get("attrs", {}).get("same_later"))}
             out.judge({"clause": clause, "why": detail}, payload)
     out.traces += len(cases)
     out.extra.update({"law_pairs": sum(1 for c in cases if c["kind"] == "law"),
                       "whitespace_variants": sum(1 for c in cases if c["kind"] == "ws"),
-                      "rule": "TLC: ten documented equivalences x 3 function operands x 14 capture operands x 9 context operands "
+                      "focus_cases": sum(1 for c in cases if c["kind"] == "parse"),
+                      "rule": "TLC: the documented equivalences (also with a category / value / predicate attached to the $x and * as x spellings) x 3 function operands x 14 capture operands x 9 context operands "
                               "through the parser transcription (equal parses, exactly one focus); the same substitutions and "
                               "random re-spacings through the real parse(), judged by TLC: equal outcome, identical object, "
-                              "lexer model agrees on every re-spaced token list"})
+                              "lexer model agrees on every re-spaced token list; .main/.focus of every compiled grammar-derived selector, read at once "
+                              "and again at the end of the process, equal the focus its structure determines (Parser.tla DMain)"})
     for c in cases[:2] + cases[-2:]:
         out.samples.append({k: c[k] for k in c if k in ("law", "ltext", "rtext", "text", "base_text", "same")})
 
